@@ -140,8 +140,13 @@ def observe (ss : Sess) (res : String) (extra : List (String × Json)) : Sess ×
     let fs := (sd.s.out.take sd.s.flushed).drop sd.seenOut
     let sorted := stableSort (fun (a b : OFrame) => (a.conn == false && b.conn == true) || (a.conn == b.conn && a.id < b.id)) fs
     Json.arr (sorted.map fun f => Json.arr #[natJ (if f.conn then 1 else 0), natJ f.id, natJ (fkCode f.kind), Json.str (hexOf f.data)]).toArray
+  let nout : Nat := (match sides[0]? with | some a => a.s.flushed - a.seenOut | none => 0) +
+    (match sides[1]? with | some b => b.s.flushed - b.seenOut | none => 0)
+  let res := if ss.diverged then "diverged" else res
+  let cls := res ++ "/" ++ (match sides[0]? with | some a => runStr a.s | none => "") ++ "/" ++
+    (if doneSorted.isEmpty then "-" else "done") ++ (if nout > 0 then "+out" else "")
   let fields : List (String × Json) :=
-    [("res", Json.str (if ss.diverged then "diverged" else res)),
+    [("res", Json.str res), ("class", Json.str cls),
      ("done", Json.arr (doneSorted.map (·.2.2)).toArray),
      ("held", Json.arr (sides.toList.map fun sd => natJ (heldCount sd.s)).toArray)] ++
     (match sides[0]? with
